@@ -145,6 +145,10 @@ class Interp(object):
             if k not in st.env:
                 raise OutOfSubset("unbound attribute %s" % k)
             return st.env[k]
+        if isinstance(node, ast.Attribute) and isinstance(node.value, ast.Name) and isinstance(st.env.get(node.value.id), ObjRef):
+            # a boolean attribute of an input object (e.g. requires_grad): an uninterpreted predicate of its position
+            o = st.env[node.value.id]
+            return z3.Function("%s<%s>" % (node.attr, o.seq.name), I, B)(o.idx)
         if isinstance(node, ast.UnaryOp):
             v = self.ev(node.operand, st)
             if isinstance(node.op, ast.USub):
@@ -193,6 +197,12 @@ class Interp(object):
                 if isinstance(v, (SList, InputSeq)):
                     return v.len
                 raise OutOfSubset("len of %r" % type(v))
+            if isinstance(f, ast.Name) and f.id == "isinstance" and len(node.args) == 2:
+                v = self.ev(node.args[0], st)
+                if isinstance(v, ObjRef):
+                    # the class test of an input object: an uninterpreted predicate of its position
+                    return z3.Function("isinstance[%s]<%s>" % (ast.unparse(node.args[1]), v.seq.name), I, B)(v.idx)
+                raise OutOfSubset("isinstance of a non-object")
             if isinstance(f, ast.Name) and f.id == "id" and len(node.args) == 1:
                 v = self.ev(node.args[0], st)
                 if isinstance(v, ObjRef):
@@ -371,6 +381,21 @@ class Interp(object):
             else:
                 st.env[name] = SList(lst.len + 1, z3.Store(lst.arr, lst.len, v), lst.of)
             return [(st, "normal")]
+        if isinstance(s, ast.Expr) and isinstance(s.value, ast.Call) and isinstance(s.value.func, ast.Attribute) \
+                and s.value.func.attr == "append" and isinstance(s.value.func.value, ast.Attribute) \
+                and isinstance(s.value.func.value.value, ast.Name) and s.value.func.value.value.id == "self":
+            # self.attr.append(v)
+            st = st.copy()
+            name = "self." + s.value.func.value.attr
+            lst = st.env.get(name)
+            v = self.ev(s.value.args[0], st)
+            if not isinstance(lst, SList):
+                raise OutOfSubset("append on %r" % type(lst))
+            if isinstance(v, ObjRef):
+                st.env[name] = SList(lst.len + 1, z3.Store(lst.arr, lst.len, v.idx), of=v.seq)
+            else:
+                st.env[name] = SList(lst.len + 1, z3.Store(lst.arr, lst.len, v), lst.of)
+            return [(st, "normal")]
         if isinstance(s, ast.Expr) and isinstance(s.value, ast.Constant):
             return [(st, "normal")]       # docstring
         if isinstance(s, ast.If):
@@ -438,7 +463,7 @@ def prove(pc, goal, timeout_ms=20000):
 class LoopVC(object):
     """obligations of one cut loop of one function"""
 
-    def __init__(self, fn, bind, invariant, post, name=None, extra_stmt=None, skip_prefix=None):
+    def __init__(self, fn, bind, invariant, post, name=None, extra_stmt=None, skip_prefix=None, definitions=()):
         """bind(interp) -> initial env (parameter name -> symbolic value);
         invariant(S, i, n) -> [(label, formula)], S: name -> symbolic value;  post(S, n) -> [(label, formula)]"""
         self.fn = fn
@@ -447,6 +472,7 @@ class LoopVC(object):
         self.name = name or fn.__qualname__
         self.extra_stmt = extra_stmt
         self.skip_prefix = skip_prefix
+        self.definitions = list(definitions)   # defining axioms of ghost functions used by the invariant (hypotheses everywhere)
         self.results = []   # (obligation name, status, detail)
 
     def _rec(self, label, pc, goal):
@@ -475,7 +501,7 @@ class LoopVC(object):
         pre, loop, after = split_at_loop(self.fdef)
         if self.skip_prefix:
             pre = [x for x in pre if not self.skip_prefix(x)]
-        st0 = State(self.bind(interp))
+        st0 = State(self.bind(interp), facts=self.definitions)
         outs = interp.block(pre, st0)
         if len(outs) != 1 or outs[0][1] != "normal":
             raise OutOfSubset("prefix of %s is not straight-line" % self.name)
@@ -490,6 +516,20 @@ class LoopVC(object):
         for x, _ in mutated_names(loop.body):
             if x not in changed:
                 changed.append(x)
+        # attributes of self that the body assigns or mutates through a method call (self.x = .., self.x.append(..), self.x[k] = ..)
+        for node in [n_ for s_ in loop.body for n_ in ast.walk(s_)]:
+            tgt = None
+            if isinstance(node, ast.Attribute) and isinstance(node.value, ast.Name) and node.value.id == "self":
+                if isinstance(node.ctx, (ast.Store, ast.Del)):
+                    tgt = node.attr
+            if isinstance(node, ast.Call) and isinstance(node.func, ast.Attribute) and isinstance(node.func.value, ast.Attribute) \
+                    and isinstance(node.func.value.value, ast.Name) and node.func.value.value.id == "self":
+                tgt = node.func.value.attr
+            if isinstance(node, ast.Subscript) and isinstance(node.ctx, (ast.Store, ast.Del)) and isinstance(node.value, ast.Attribute) \
+                    and isinstance(node.value.value, ast.Name) and node.value.value.id == "self":
+                tgt = node.value.attr
+            if tgt is not None and "self." + tgt not in changed:
+                changed.append("self." + tgt)
 
         def havoc_state(i):
             st = st_pre.copy()
